@@ -194,6 +194,12 @@ func (sr *StreamReader) ReadBinary() ([]byte, error) {
 		return nil, err
 	}
 
+	return sr.readBytes(length)
+}
+
+// readBytes reads a byte array of the given length. Memory for large lengths
+// is allocated only as the bytes arrive.
+func (sr *StreamReader) readBytes(length int32) ([]byte, error) {
 	if length < 0 {
 		return nil, decodeErrorf("negative length %v specified for binary field", length)
 	}
@@ -214,7 +220,7 @@ func (sr *StreamReader) ReadBinary() ([]byte, error) {
 	}
 
 	bs := make([]byte, length)
-	_, err = sr.read(bs)
+	_, err := sr.read(bs)
 	return bs, err
 }
 
